@@ -175,12 +175,12 @@ def r4(cx):
             if from_fill_buf(other):
                 te, fe = bool_edges(b.term, c)
                 empty = te if c.op == "Eq" else fe
-                again = [t for t in hs if t.bb in cfg.reach(empty[2])]
+                again = [t for t in hs if t.bb in cfg.after(empty)]
                 okk = not again
                 detail = "after fill_buf() reported end of input the loop can call handle() again: a peer that hung up (e.g. in the middle of a message) keeps a worker busy forever and, with max_worker_threads such peers, no other connection is served"
         elif c.kind == "call" and c.term.callee.name == "is_empty" and from_fill_buf(c.term.args[0]):
             te, fe = bool_edges(b.term, c)
-            again = [t for t in hs if t.bb in cfg.reach(te[2])]
+            again = [t for t in hs if t.bb in cfg.after(te)]
             okk = not again
             detail = "after fill_buf() reported end of input the loop can call handle() again"
     # fill_buf error leaves as well
